@@ -266,6 +266,12 @@ func (d *Dispatcher) AddPeer(
 func (d *Dispatcher) addPeer(
 	peerID core.PeerID, isPeerOrigin bool, b *bitset.BitSet, messages Messages) (*peer, error) {
 
+	if b == nil || int(b.Len()) != d.torrent.NumPieces() {
+		// The bitfield comes from the remote peer's handshake. One of the wrong size
+		// would index the per-piece bookkeeping out of range.
+		return nil, errors.New("bitfield length does not match number of pieces")
+	}
+
 	pstats := &peerStats{}
 	if s, ok := d.peerStats.LoadOrStore(peerID, pstats); ok {
 		ps, ok := s.(*peerStats)
